@@ -9,9 +9,17 @@ PROPERTY = 'C03'
 LEAN_TARGETS = ['PxProofs.C03']
 THEOREMS = [
     'Px.Chunk.C03_chunk_feed_append',
+    'Px.Chunk.C03_chunk_wf',
     'Px.Chunk.C03_chunk_segmentation',
     'Px.Chunk.C03_chunk_exact_completion',
     'Px.Parser.C03_buffer_carry',
+    'Px.Parser.C03_wf',
+    'Px.Parser.C03_feed_append',
+    'Px.Parser.C03_segmentation',
+    'Px.Parser.C03_segmentation_request',
+    'Px.Parser.C03_segmentation_from',
+    'Px.Parser.C03_exact_completion',
+    'Px.Parser.C03_exact_completion_statusline',
 ]
 RULE = ('messages from the HTTP grammar (requests/responses x Content-Length / chunked / Content-Length: 0 / '
         'body-less / header-less, with trailing bytes where the quantifier allows) cut at random positions, all '
